@@ -1,7 +1,7 @@
 #!/bin/bash
 # usage: confirm_mutant.sh <ID>  -- my own confirmation of a seeded change in its scratch worktree /tmp/mut/<ID>
 # (1) demo fails with the change, (2) demo passes without it, (3) the existing suite passes with it.
-id=$1; wt=/tmp/mut/$id; out=$wt/CONFIRM.log
+id=$1; wt=${MUTROOT:-/tmp/mut}/$id; out=$wt/CONFIRM.log
 cd $wt || exit 2
 demo_cmd=$(python3 -c "import json;print(json.load(open('$wt/MUTANT/meta.json'))['demo_cmd'])")
 echo "demo_cmd: $demo_cmd" > $out
